@@ -156,6 +156,11 @@ def to_python(spec):
             def __len__(self):
                 return len(self.d)
         return M(dict((k, to_python(v)) for k, v in spec[1]))
+    if t == 'oddkeys':
+        # mappings whose keys are not (all) strings: legitimate Python dicts an endpoint may return
+        return {'int': {1: 'a', 2: 'b', 10: 'c'}, 'float': {1.5: 'a', 2.0: 'b'}, 'bool': {True: 'yes', False: 'no'}, 'none': {None: 'nothing', 'a': 1},
+                'tuple': {(1, 2): 'pair', 'a': 1}, 'mixed': {1: 'a', 'b': 2}, 'mixed_nested': {'rows': [{1: 'a', 'b': 2}]},
+                'bytes': {b'k': 1, b'j': 2}}[spec[1]]
     if t == 'list':
         return [to_python(v) for v in spec[1]]
     if t == 'tuple':
@@ -303,6 +308,19 @@ def impl(case):
     return out
 
 
+def unorderable_keys(v):
+    """some mapping inside v has keys that Python cannot order among themselves (1 and 'b', None and 'a', a tuple and 'a')"""
+    if isinstance(v, dict):
+        try:
+            sorted(v.keys())
+        except TypeError:
+            return True
+        return any(unorderable_keys(x) for x in v.values())
+    if isinstance(v, (list, tuple)):
+        return any(unorderable_keys(x) for x in v)
+    return False
+
+
 def fmt_of(query):
     if 'format=' not in query:
         return 'absent'
@@ -321,8 +339,17 @@ def oracle(case, obs):
             if f == 'html' or (f == 'absent' and o['best'] == 'text/html'):
                 if not case.get('tabular') and isinstance(spec, list) and spec[0] in ('dict', 'list', 'tuple', 'set', 'mapping'):
                     continue          # HTML table of a non-tabular shape: outside the clause (O10)
+            if isinstance(spec, list) and spec[0] == 'oddkeys' and (f == 'html' or (f == 'absent' and o['best'] == 'text/html')):
+                continue              # the HTML table of such a mapping is the third-party table builder's business (O10)
             if o['exc'] or o['status'] != 200:
-                return ('%s: status %s %s' % (what, o['status'], o['exc'] or ''), 'basic-not-200')
+                sig = 'basic-not-200'
+                if isinstance(spec, list) and spec[0] == 'oddkeys' and unorderable_keys(to_python(spec)):
+                    sig = 'render_basic:mapping-with-unorderable-keys'
+                return ('%s: status %s %s' % (what, o['status'], o['exc'] or ''), sig)
+            if isinstance(spec, list) and spec[0] == 'oddkeys':
+                if o['ctype'] != 'application/json' or o['parse_error']:
+                    return ('%s: expected JSON, got %s %s' % (what, o['ctype'], o['parse_error'] or ''), 'json')
+                continue
             if isinstance(spec, list) and spec[0] in ('s', 'b'):
                 t = spec[1]
                 stripped_json = False
@@ -352,6 +379,8 @@ def oracle(case, obs):
                         return ('%s: expected JSON, got %s %s' % (what, o['ctype'], o['parse_error'] or ''), 'json')
                     if native(spec) and o['parsed'] != native_value(spec):
                         return ('%s: JSON parses to %r, the value is %r' % (what, o['parsed'], native_value(spec)), 'roundtrip')
+        elif isinstance(spec, list) and spec[0] == 'oddkeys':
+            continue                  # the JSON renderers' clauses are about JSON-native data (string keys)
         else:
             dev = rq['render'] != 'json'
             is_native = native(spec)
@@ -391,10 +420,13 @@ def run(rep, b, tier, seed, only_cases=None):
     cases = list(only_cases) if only_cases is not None else corpus + \
         [{'value': ['s', t], 'tabular': False, 'requests': [{'render': 'basic', 'query': '', 'accept': None}, {'render': 'basic', 'query': 'format=html', 'accept': 'text/html'}]} for t in TEXTS] + \
         [{'value': ['b', t], 'tabular': False, 'requests': [{'render': 'basic', 'query': '', 'accept': None}]} for t in TEXTS] + \
+        [{'value': ['oddkeys', k], 'tabular': False,
+          'requests': [{'render': 'basic', 'query': q, 'accept': a} for q in ('', 'format=json') for a in (None, 'application/json', '*/*', 'text/html')]}
+         for k in ('int', 'float', 'bool', 'none', 'tuple', 'mixed', 'mixed_nested', 'bytes')] + \
         [gen_case(rng, tier) for _ in range(500 if tier == 'quick' else 5000)]
     rep.rule = ('renderlab: endpoints with 8 docstring shapes (none, one line, multi-line, empty, blank, markup); endpoint results from {str, bytes (%d texts: JSON-like, HTML-like incl. a 168-byte doctype boundary, plain, '
                 'empty, non-ASCII), int, float, bool, None, nested dict/list/tuple/set to depth 3, custom Mapping, datetime, objects with '
-                'to_dict/asdict, plain objects, generators} and tabular shapes; renderers render_basic / render_json / render_json_dev / '
+                'to_dict/asdict/isoformat (date, time, own types), plain objects, generators} and tabular shapes; 8 mappings whose keys are not all strings (int, float, bool, None, tuple, bytes, mixed) through render_basic (oracle only: 200 and valid JSON); renderers render_basic / render_json / render_json_dev / '
                 'streaming JSON / JSONP with callback; format in {absent, json, html, empty, other}; %d Accept headers; status, '
                 'Content-Type, parsed body compared with Model/Render.v and the oracle. non-trivial = container values.'
                 % (len(TEXTS), len(ACCEPTS)))
@@ -407,6 +439,8 @@ def run(rep, b, tier, seed, only_cases=None):
         if isinstance(o, dict) and '_harness_exception' in o:
             rep.broken('harness exception on implementation side', {'case': c, 'obs': o})
             continue
+        if isinstance(c['value'], list) and c['value'][0] == 'oddkeys':
+            continue                      # outside the model (its mappings are string-keyed): oracle only
         for k, (rq, r) in enumerate(zip(c['requests'], o)):
             best = sexp.some(r['best']) if r['best'] is not None else 'None'
             lines.append('renderlab ' + sexp.dumps([to_model(c['value']), fmt_of(rq['query']), best, rq['render'] != 'json']))
